@@ -12,9 +12,9 @@ func init() {
 		ID:         "C29",
 		Level:      "other",
 		Technique:  "sibling agreement of the open and opaque coder constructors (coder-info literal rows, wire tag computation, field ordering comparators, method wiring) with a reviewed exception table; the codec rules of C03/C04/C11 evaluated on the opaque coders (static)",
-		Explain:    "Decides structural necessary conditions of `all API flavors of one schema are interchangeable` on the wire: (1) makeCoderMethods (open/hybrid structs) and makeOpaqueCoderMethods (opaque structs) build each field's coder info from the same expressions for field number, wire tag, tag size, Go type, coder functions, child message info, required flag and validation info, sort the fields by the same comparators (by number, then oneofs last through LegacyFieldOrder) and install the same fast-path methods and support flags — differences are limited to a reviewed table (field offset, pointer-ness, presence index, lazy flag); (2) the opaque message/group coders satisfy the same size/append and coder-row agreement rules as the open ones; (3) presence-bit constants in generated opaque code match the runtime's slot numbering (C11 rules).",
+		Explain:    "Decides structural necessary conditions of `all API flavors of one schema are interchangeable` on the wire: (1) makeCoderMethods (open/hybrid structs) and makeOpaqueCoderMethods (opaque structs) build each field's coder info from the same expressions for field number, wire tag, tag size, Go type, coder functions, child message info, required flag and validation info, sort the fields by the same comparators (by number, then oneofs last through LegacyFieldOrder) and install the same fast-path methods and support flags — differences are limited to a reviewed table (field offset, pointer-ness, presence index, lazy flag); (2) the opaque message/group coders satisfy the same size/append and coder-row agreement rules as the open ones; (3) presence-bit constants in generated opaque code match the runtime's slot numbering (C11 rules); (4) in every reflection accessor table (open and opaque) the `clear` of a field whose `mutable` returns stored state resets that storage, so Clear followed by Mutable behaves the same in every flavor; (5) the generated flavors' deterministic map-key comparator and the reflection comparator used by dynamicpb order keys identically.",
 		NotCovered: "value-level interchangeability (bytes, JSON, text) of concrete messages across flavors; dynamicpb; the reflection API differences between flavors.",
-		Quick:      all("./internal/impl", "./cmd/protoc-gen-go/internal_gengo", "./internal/testprotos/lazy/...", "./internal/testprotos/mixed"),
+		Quick:      all("./internal/impl", "./internal/order", "./cmd/protoc-gen-go/internal_gengo", "./internal/testprotos/lazy/...", "./internal/testprotos/mixed"),
 		Thorough:   all("./..."),
 		Run: func(c *Ctx) {
 			c.ruleCoderCtorParity("R-CODER-CTOR-PARITY")
@@ -22,6 +22,8 @@ func init() {
 			c.ruleCoderRow("R-CODER-ROW", 100)
 			c.rulePresenceConst("R-PRESENCE-CONST", 50)
 			c.rulePresenceIndexSiblings("R-PRESENCE-INDEX-SIBLINGS")
+			c.ruleClearResets("R-CLEAR-RESETS", 8)
+			c.ruleMapKeyOrder("R-MAPKEY-ORDER")
 		},
 	})
 }
@@ -218,4 +220,77 @@ func canonTyped(info *types.Info, e ast.Expr) string {
 		return x.Value
 	}
 	return exprStr(e)
+}
+
+// R-CLEAR-RESETS: the reflective `clear` of a field whose `mutable` hands out
+// the existing stored value (messages, lists, maps) must reset that storage,
+// not only a presence bit: otherwise Clear followed by Mutable resurrects the
+// old contents (and differs between API flavors).
+func (c *Ctx) ruleClearResets(rule string, floor int) {
+	R, P := c.R, c.P
+	R.Rule(rule, "in every fieldInfo literal of internal/impl whose `mutable` accessor returns stored state (it does not just panic), the `clear` accessor writes the field's storage (reflect Set of the zero value, a nil/zero pointer store, or clearing the element in place) in addition to any presence bookkeeping", floor)
+	for _, fi := range P.FuncsIn("internal/impl") {
+		if fi.Decl.Body == nil {
+			continue
+		}
+		info := fi.Info()
+		k := 0
+		walkAll(fi.Decl.Body, func(n ast.Node) bool {
+			cl, ok := n.(*ast.CompositeLit)
+			if !ok || namedTypeName(info.TypeOf(cl)) != "internal/impl.fieldInfo" {
+				return true
+			}
+			var clear, mutable *ast.FuncLit
+			for _, el := range cl.Elts {
+				if kv, ok := el.(*ast.KeyValueExpr); ok {
+					if id, ok := kv.Key.(*ast.Ident); ok {
+						if fl, ok := kv.Value.(*ast.FuncLit); ok {
+							switch id.Name {
+							case "clear":
+								clear = fl
+							case "mutable":
+								mutable = fl
+							}
+						}
+					}
+				}
+			}
+			if clear == nil || mutable == nil {
+				return true
+			}
+			onlyPanics := len(mutable.Body.List) == 1
+			if onlyPanics {
+				es, ok := mutable.Body.List[0].(*ast.ExprStmt)
+				onlyPanics = ok
+				if ok {
+					call, ok := es.X.(*ast.CallExpr)
+					id, _ := call.Fun.(*ast.Ident)
+					onlyPanics = ok && id != nil && id.Name == "panic"
+				}
+			}
+			if onlyPanics {
+				return true
+			}
+			k++
+			resets := false
+			walk(clear.Body, func(x ast.Node) bool {
+				switch v := x.(type) {
+				case *ast.CallExpr:
+					ck := calleeKey(info, v)
+					if ck == "reflect.Value.Set" || strings.HasPrefix(ck, "internal/impl.pointer.AtomicSetNilPointer") || strings.HasPrefix(ck, "internal/impl.pointer.SetPointer") || strings.HasPrefix(ck, "internal/impl.pointer.AtomicSetPointer") {
+						resets = true
+					}
+				case *ast.AssignStmt:
+					for _, l := range v.Lhs {
+						if _, ok := unparen(l).(*ast.StarExpr); ok {
+							resets = true
+						}
+					}
+				}
+				return true
+			})
+			R.Check(resets, rule, fi.Key+" fieldInfo #"+itoa(k)+" clear", P.Pos(clear), "clear resets the stored value", "`clear` does not write the field's storage although `mutable` returns stored state: Clear followed by Mutable resurrects the old contents")
+			return true
+		})
+	}
 }
